@@ -48,8 +48,88 @@ def scan() -> list[dict]:
     return out
 
 
+def scan_value() -> list[dict]:
+    """Every class anywhere under src/spox that defines `propagate_values` (a propagated value ends up
+    in reported shapes through ONNX's data propagation, so a new definition is a new way for a
+    reported type to depend on a value)."""
+    out = []
+    root = REPO / "src/spox"
+    for path in sorted(root.rglob("*.py")):
+        rel = str(path.relative_to(root))[:-3].replace("/", ".")
+        try:
+            mod = ast.parse(path.read_text(), filename=rel)
+        except Exception:  # noqa: BLE001
+            out.append({"module": rel, "cls": "<unparsable>", "hash": ""})
+            continue
+        for cls in ast.walk(mod):
+            if isinstance(cls, ast.ClassDef):
+                for st in cls.body:
+                    if isinstance(st, ast.FunctionDef) and st.name == "propagate_values":
+                        h = hashlib.sha1(ast.dump(st, include_attributes=False).encode()).hexdigest()[:12]
+                        out.append({"module": rel, "cls": cls.name, "hash": h})
+    return out
+
+
+GLUE = {
+    "src/spox/_standard.py": ["StandardNode.to_singleton_onnx_model", "StandardNode.infer_output_types_onnx",
+                              "StandardNode.propagate_values_onnx", "StandardNode.infer_output_types",
+                              "StandardNode.propagate_values", "StandardNode._is_non_deterministic",
+                              "_strip_dim_symbol_shape", "_strip_dim_symbol", "_make_dummy_subgraph"],
+    "src/spox/_inline.py": ["_Inline.infer_output_types", "_Inline.propagate_values"],
+    "src/spox/_node.py": ["Node.inference", "Node.subgraphs"],
+    "src/spox/_function.py": ["Function.infer_output_types"],
+}
+
+
+def scan_glue() -> list[dict]:
+    """Normalised-AST hash of every glue function the reported types pass through (not an obligation:
+    a changed hash makes the harness escalate its counts, see harness/props/c06.py)."""
+    out = []
+    for rel, names in GLUE.items():
+        try:
+            mod = ast.parse((REPO / rel).read_text(), filename=rel)
+        except Exception:  # noqa: BLE001
+            out += [{"file": rel, "name": n, "hash": "unparsable"} for n in names]
+            continue
+        found = {}
+        for node in mod.body:
+            if isinstance(node, (ast.FunctionDef, ast.AsyncFunctionDef)):
+                found[node.name] = node
+            elif isinstance(node, ast.ClassDef):
+                for st in node.body:
+                    if isinstance(st, (ast.FunctionDef, ast.AsyncFunctionDef)):
+                        found[f"{node.name}.{st.name}"] = st
+        for n in names:
+            st = found.get(n)
+            h = hashlib.sha1(ast.dump(st, include_attributes=False).encode()).hexdigest()[:12] if st is not None else "missing"
+            out.append({"file": rel, "name": n, "hash": h})
+    return out
+
+
+def scan_sampling_guard() -> list[str]:
+    """The operator names in `_standard._NON_DETERMINISTIC_OPS` (no value propagation for them), and only
+    if `propagate_values_onnx` still consults `_is_non_deterministic`; [] otherwise."""
+    try:
+        mod = ast.parse((REPO / "src/spox/_standard.py").read_text())
+    except Exception:  # noqa: BLE001
+        return []
+    names: list[str] = []
+    for node in mod.body:
+        if isinstance(node, ast.Assign) and any(isinstance(t, ast.Name) and t.id == "_NON_DETERMINISTIC_OPS" for t in node.targets):
+            names = sorted({c.value for c in ast.walk(node.value) if isinstance(c, ast.Constant) and isinstance(c.value, str)})
+    consulted = False
+    for node in ast.walk(mod):
+        if isinstance(node, ast.FunctionDef) and node.name == "propagate_values_onnx":
+            consulted = any(isinstance(c, ast.Call) and isinstance(c.func, ast.Attribute) and c.func.attr == "_is_non_deterministic"
+                            for c in ast.walk(node))
+    return names if consulted else []
+
+
 def generate() -> dict:
     rows = scan()
+    vrows = scan_value()
+    vitems = [f"({lean_str(r['module'])}, {lean_str(r['cls'])})" for r in vrows]
+    guard = scan_sampling_guard()
     items = [f"({lean_str(r['module'])}, {lean_str(r['op'])})" for r in rows]
     text = (
         HEADER.format(src=OPSET_DIR + "/**/*.py", tool="translator/ml_overrides.py")
@@ -57,10 +137,17 @@ def generate() -> dict:
         + "namespace Generated.MLOverrides\n\n"
         + "def overrides : List (String × String) :=\n  "
         + lean_list(items).replace("), (", "),\n   (")
+        + "\n\n/-- Classes that define their own `propagate_values` (module under src/spox, class). -/\n"
+        + "def valueOverrides : List (String × String) :=\n  "
+        + lean_list(vitems).replace("), (", "),\n   (")
+        + "\n\n/-- Operators excluded from value propagation (`_NON_DETERMINISTIC_OPS`, consulted by\n"
+        + "    `propagate_values_onnx`; empty when the guard is gone). -/\n"
+        + "def samplingGuard : List String :=\n  "
+        + lean_list([lean_str(n) for n in guard])
         + "\n\nend Generated.MLOverrides\n"
     )
     write_if_changed(GEN / "MLOverrides.lean", text)
-    return {"rows": rows}
+    return {"rows": rows, "value_rows": vrows, "glue": scan_glue(), "sampling_guard": guard}
 
 
 if __name__ == "__main__":
